@@ -241,10 +241,14 @@ class Model:
         ch = self.pre.channels.get(name)
         if ch is None or ch.in_eom() or ch.is_dmm:
             return None
-        from mc.worlds import programmed_post
+        from mc.worlds import programmed_duration, programmed_phase, programmed_post
 
-        pl = make_pulse(spec)
-        return self._add(name, pl.duration, float(pl.phase), programmed_post(spec), protocol)  # the shift as written by the caller
+        # duration, phase and post-phase-shift as WRITTEN by the caller (the built Pulse is consulted only for phase waveforms whose
+        # first sample the spec does not spell out)
+        ph = programmed_phase(spec)
+        if ph is None:
+            ph = float(make_pulse(spec).phase)
+        return self._add(name, programmed_duration(spec), ph % TWO_PI, programmed_post(spec), protocol)
 
     def add_dmm(self, op):
         from mc.worlds import make_wf
